@@ -7,6 +7,7 @@ from . import sweep
 
 E, F = K.E, K.F
 ONCE_TABLES = {E + "basepointTablePrecomp", E + "basepointNafTablePrecomp"}
+READERS = {"Bytes", "BytesMontgomery", "Equal", "ExtendedCoordinates", "IsNegative"}
 
 
 def events_of(base, chk, fname):
@@ -62,6 +63,14 @@ def analyse(base, chk, fname):
                     summary["globals_read"].add(g)
                     if g in ONCE_TABLES and g not in inside and g not in done:
                         summary["table_access_before_do"].append(g)
+    short = base.prog.fn(fname)["short"]
+    if short in READERS:
+        argobjs = set()
+        for a in r.args:
+            if isinstance(a, X.Ptr):
+                argobjs.add(a.obj)
+        wr = sorted({(r.ex.meta[ev[1]].name, ev[2]) for p in r.paths for ev in p.log if ev[0] == "w" and ev[1] in argobjs})
+        chk.fact("%s: a read-only operation writes neither its receiver nor its arguments (values other goroutines may be reading)" % label, not wr, [fname], "effects", detail=str(wr[:3]))
     chk.fact("%s: the only package-level writes are to a precomputed table inside its own Once.Do initialiser" % label, not summary["writes_outside_once"], [fname], "effects", detail=str(summary["writes_outside_once"][:3]))
     chk.fact("%s: a precomputed table is read only after its Once.Do call has returned (program order)" % label, not summary["table_access_before_do"], [fname], "effects", detail=str(summary["table_access_before_do"][:3]))
     chk.extra.setdefault("events", {})[fname] = dict(once=sorted(summary["once"]), globals_read=sorted(summary["globals_read"]), paths=len(traces),
